@@ -668,7 +668,12 @@ func (c *Ctx) noWaitOnDispatchGroups(rule string) {
 	for _, fn := range c.clientFuncs() {
 		funcInstrs(fn, func(in ssa.Instruction) {
 			if recv, ok := isWGMethod(in, "Wait"); ok {
-				if fv, _ := fieldOf(recv); fv != nil && groups[fv] {
+				if fv, base := fieldOf(recv); fv != nil && groups[fv] {
+					// a field of a record the waiting function has just allocated is that function's own, per-call
+					// WaitGroup (the per-dispatch join kept in a struct with the connection and the line)
+					if c.allOriginsLocalAlloc(base, fn) {
+						return
+					}
 					n++
 					r.Add(rule, "waits-for-dispatch:"+c.FuncKey(fn)+":"+fv.Name(), c.InstrPos(in), c.FuncKey(fn), "no one waits for background handlers to finish", false, "Wait on "+fv.Name()+", which handler dispatch (including background handlers) adds itself to")
 				}
